@@ -39,8 +39,13 @@ structure Sim (s : Code) (r : Reg) (as : List Nat) : Prop where
   live : as.map (· + 1) = r.live
   sorted : r.live.Pairwise (· < ·)
   keys : ∀ a, a < s.m.heap.length → keyOf s.m a = some (a + 1)
-  frozen : ∀ a, a < s.m.heap.length → a ∉ as →
+  frozen : ∀ a, a < s.m.heap.length → a ∉ as → (∃ q ∈ r.frozen, q.1 = a + 1) →
     r.frozen.find? (fun p => p.1 == a + 1) = some (a + 1, (nextOf s.m a).map (· + 1))
+
+/-- Every removed element has its frozen entry on the abstract level (true from the empty registry on; a registry
+"that nobody iterates" may forget them, see `Sim.forget`). -/
+def Full (s : Code) (r : Reg) (as : List Nat) : Prop :=
+  ∀ a, a < s.m.heap.length → a ∉ as → ∃ q ∈ r.frozen, q.1 = a + 1
 
 /-! ## list facts -/
 
@@ -86,6 +91,16 @@ theorem filter_map_succ (as : List Nat) (a : Nat) :
     by_cases hx : x = a
     · subst hx; simp [ih]
     · simp [hx, ih]
+
+theorem map_succ_inj : ∀ {l1 l2 : List Nat}, l1.map (· + 1) = l2.map (· + 1) → l1 = l2
+  | [], [], _ => rfl
+  | [], _ :: _, h => by simp at h
+  | _ :: _, [], h => by simp at h
+  | x :: l1, y :: l2, h => by
+    simp only [List.map_cons, List.cons.injEq] at h
+    have := map_succ_inj h.2
+    have : x = y := by omega
+    subst this; simp [*]
 
 theorem mem_map_succ {as : List Nat} {a : Nat} : a + 1 ∈ as.map (· + 1) ↔ a ∈ as := by
   simp
@@ -141,7 +156,8 @@ theorem Sim.contains_iff {s : Code} {r : Reg} {as : List Nat} (h : Sim s r as) (
 
 /-- **Every pointer read of an iterator agrees with the abstract registry**: the element at address `a`
 (live or removed) carries the id `a + 1`, and its `next` pointer is the abstract `next`. -/
-theorem Sim.next_eq {s : Code} {r : Reg} {as : List Nat} (h : Sim s r as) {a : Nat} (hlt : a < s.m.heap.length) :
+theorem Sim.next_eq {s : Code} {r : Reg} {as : List Nat} (h : Sim s r as) {a : Nat} (hlt : a < s.m.heap.length)
+    (hk : a + 1 ∈ r.live ∨ ∃ q ∈ r.frozen, q.1 = a + 1) :
     (nextOf s.m a).map (· + 1) = Hive.EventsIter.next r (a + 1) := by
   unfold Hive.EventsIter.next
   by_cases ha : a ∈ as
@@ -150,7 +166,20 @@ theorem Sim.next_eq {s : Code} {r : Reg} {as : List Nat} (h : Sim s r as) {a : N
     rw [if_pos hc, h.liveNext_eq ha, h.wf.next a ha]
   · have hx : a + 1 ∉ r.live := by rw [← h.live]; exact fun hm => ha (mem_map_succ.mp hm)
     have hc : ¬ r.live.contains (a + 1) = true := by simpa using hx
-    rw [if_neg hc, h.frozen a hlt ha]
+    have hq : ∃ q ∈ r.frozen, q.1 = a + 1 := hk.resolve_left hx
+    rw [if_neg hc, h.frozen a hlt ha hq]
+
+/-- A registry that nobody iterates may forget its frozen entries. -/
+theorem Sim.forget {s : Code} {r : Reg} {as : List Nat} (h : Sim s r as) : Sim s { r with frozen := [] } as :=
+  ⟨h.wf, h.cnt, h.len, h.live, h.sorted, h.keys, fun _ _ _ hq => by simp at hq⟩
+
+theorem Sim.live_le {s : Code} {r : Reg} {as : List Nat} (h : Sim s r as) : ∀ x ∈ r.live, x ≤ r.counter := by
+  intro x hx
+  rw [← h.live] at hx
+  obtain ⟨a, ha, rfl⟩ := List.mem_map.mp hx
+  have := h.wf.bound a ha
+  have := h.cnt; have := h.len
+  omega
 
 theorem Sim.head_eq {s : Code} {r : Reg} {as : List Nat} (h : Sim s r as) : s.m.head.map (· + 1) = r.live.head? := by
   rw [h.wf.head, ← h.live]
@@ -167,6 +196,9 @@ theorem sim_init : Sim Code.init Reg.empty [] := by
   refine ⟨WF_empty, rfl, rfl, rfl, by simp [Reg.empty], ?_, ?_⟩
   · intro a ha; simp [Code.init, OM.empty] at ha
   · intro a ha; simp [Code.init, OM.empty] at ha
+
+theorem full_init : Full Code.init Reg.empty [] := by
+  intro a ha; simp [Code.init, OM.empty] at ha
 
 theorem set_new_dict {m : OM} {k : Nat} (v : Nat) (hl : lookup m k = none) :
     (set m k v).1.dict = m.dict ++ [(k, m.heap.length)] ∧ (set m k v).1.heap.length = m.heap.length + 1 := by
@@ -226,15 +258,25 @@ theorem sim_attach {s : Code} {r : Reg} {as : List Nat} (h : Sim s r as) (v : Na
       have hlt : a < s.m.heap.length := by omega
       rw [(hfz a hna hlt).2.2]
       exact h.keys a hlt
-  · intro a ha hna
+  · intro a ha hna hq
     simp only [codeStep] at ha ⊢
     rw [hlen] at ha
     have hna' : a ∉ as := fun x => hna (List.mem_append_left _ x)
     have hne : a ≠ s.m.heap.length := fun x => hna (by simp [x])
     have hlt : a < s.m.heap.length := by omega
     rw [(hfz a hna' hlt).1]
-    simp only [regStep, Hive.EventsIter.attach]
-    exact h.frozen a hlt hna'
+    simp only [regStep, Hive.EventsIter.attach] at hq ⊢
+    exact h.frozen a hlt hna' hq
+
+theorem full_attach {s : Code} {r : Reg} {as : List Nat} (h : Sim s r as) (hf : Full s r as) (v : Nat) :
+    Full (codeStep s (.attach v)) (regStep r (.attach v)) (as ++ [s.m.heap.length]) := by
+  obtain ⟨_, hlen⟩ := set_new_dict (m := s.m) v h.lookup_fresh
+  intro a ha hna
+  simp only [codeStep] at ha
+  rw [hlen] at ha
+  have hna' : a ∉ as := fun x => hna (List.mem_append_left _ x)
+  have hne : a ≠ s.m.heap.length := fun x => hna (by simp [x])
+  exact hf a (by omega) hna'
 
 theorem sim_delete {s : Code} {r : Reg} {as : List Nat} (h : Sim s r as) (x : Nat) :
     ∃ as', Sim (codeStep s (.delete x)) (regStep r (.delete x)) as' := by
@@ -279,7 +321,7 @@ theorem sim_delete {s : Code} {r : Reg} {as : List Nat} (h : Sim s r as) (x : Na
       simp only [codeStep] at hb ⊢
       rw [hlen] at hb
       rw [hkeys]; exact h.keys b hb
-    · intro b hb hnb
+    · intro b hb hnb hq
       simp only [codeStep] at hb hnb ⊢
       rw [hlen] at hb
       by_cases hba : b = a
@@ -292,26 +334,78 @@ theorem sim_delete {s : Code} {r : Reg} {as : List Nat} (h : Sim s r as) (x : Na
           rw [List.mem_filter]
           exact ⟨hm, by simpa using hba⟩
         have hne : ¬ (a + 1 == b + 1) = true := by simp; omega
+        have hq' : ∃ q ∈ r.frozen, q.1 = b + 1 := by
+          obtain ⟨q, hqm, hqe⟩ := hq
+          rcases List.mem_cons.mp hqm with rfl | hqm
+          · exact absurd hqe (by simp; omega)
+          · exact ⟨q, hqm, hqe⟩
         rw [(hfz b hnb' hb).1, List.find?_cons]
         simp only [hne]
-        exact h.frozen b hb hnb'
+        exact h.frozen b hb hnb' hq'
+
+/-- `Delete` never shrinks the heap; `Full` is preserved together with `Sim`. -/
+theorem sim_full_step {s : Code} {r : Reg} {as : List Nat} (h : Sim s r as) (hf : Full s r as) (op : ROp) :
+    ∃ as', Sim (codeStep s op) (regStep r op) as' ∧ Full (codeStep s op) (regStep r op) as' := by
+  cases op with
+  | attach v => exact ⟨_, sim_attach h v, full_attach h hf v⟩
+  | delete x =>
+    cases hl : lookup s.m x with
+    | none =>
+      have hc : r.live.contains x = false := by rw [h.contains_iff, has, hl]; rfl
+      have e1 : codeStep s (.delete x) = s := by simp [codeStep, delete_absent hl]
+      have e2 : regStep r (.delete x) = r := by
+        show Hive.EventsIter.delete r x = r
+        unfold Hive.EventsIter.delete
+        rw [if_neg (by rw [hc]; simp)]
+      rw [e1, e2]; exact ⟨as, h, hf⟩
+    | some a =>
+      obtain ⟨he, ha⟩ := h.lookup_some hl
+      subst he
+      have hc : r.live.contains (a + 1) = true := by rw [h.contains_iff, has, hl]; rfl
+      obtain ⟨e, hge⟩ := getElem_of_bound (h.wf.bound a ha)
+      have hlen : (EventsOMap.delete s.m (a + 1)).1.heap.length = s.m.heap.length := by
+        rw [delete_eq hl hge]; exact length_delHeap _ _
+      have hreg : regStep r (.delete (a + 1)) =
+          { r with live := r.live.filter (fun y => y != a + 1), frozen := (a + 1, liveNext r (a + 1)) :: r.frozen } := by
+        show Hive.EventsIter.delete r (a + 1) = _
+        unfold Hive.EventsIter.delete
+        rw [if_pos hc]
+      obtain ⟨as', h'⟩ := sim_delete h (a + 1)
+      have has' : as' = as.filter (· != a) := by
+        have h1 := h'.live
+        rw [hreg] at h1
+        simp only at h1
+        rw [← h.live, ← filter_map_succ] at h1
+        exact map_succ_inj h1
+      refine ⟨as', h', ?_⟩
+      intro b hb hnb
+      simp only [codeStep] at hb
+      rw [hlen] at hb
+      rw [hreg]
+      by_cases hba : b = a
+      · exact ⟨(a + 1, liveNext r (a + 1)), by simp, by simp [hba]⟩
+      · have hnb' : b ∉ as := by
+          intro hm
+          apply hnb
+          rw [has', List.mem_filter]
+          exact ⟨hm, by simpa using hba⟩
+        obtain ⟨q, hq, hqe⟩ := hf b hb hnb'
+        exact ⟨q, List.mem_cons_of_mem _ hq, hqe⟩
 
 def runCode (ops : List ROp) : Code := ops.foldl codeStep Code.init
 def runReg (ops : List ROp) : Reg := ops.foldl regStep Reg.empty
 
-theorem sim_run (ops : List ROp) : ∃ as, Sim (runCode ops) (runReg ops) as := by
+theorem sim_run (ops : List ROp) : ∃ as, Sim (runCode ops) (runReg ops) as ∧ Full (runCode ops) (runReg ops) as := by
   unfold runCode runReg
-  suffices ∀ (s : Code) (r : Reg) (as : List Nat), Sim s r as →
-      ∃ as', Sim (ops.foldl codeStep s) (ops.foldl regStep r) as' from this _ _ _ sim_init
+  suffices ∀ (s : Code) (r : Reg) (as : List Nat), Sim s r as → Full s r as →
+      ∃ as', Sim (ops.foldl codeStep s) (ops.foldl regStep r) as' ∧ Full (ops.foldl codeStep s) (ops.foldl regStep r) as'
+    from this _ _ _ sim_init full_init
   induction ops with
-  | nil => intro s r as h; exact ⟨as, h⟩
+  | nil => intro s r as h hf; exact ⟨as, h, hf⟩
   | cons op rest ih =>
-    intro s r as h
+    intro s r as h hf
     simp only [List.foldl_cons]
-    cases op with
-    | attach v => exact ih _ _ _ (sim_attach h v)
-    | delete x =>
-      obtain ⟨as', h'⟩ := sim_delete h x
-      exact ih _ _ _ h'
+    obtain ⟨as', h', hf'⟩ := sim_full_step h hf op
+    exact ih _ _ _ h' hf'
 
 end Hive.EventsRegSim
